@@ -503,6 +503,13 @@ class Interp:
                 r_ = self.expr(st.value, env, mod)
                 if isinstance(r_, Unk) and isinstance(st.value, ast.Call):
                     self.lost.append((getattr(st, 'lineno', 0), up(st.value)[:80], r_.why))       # a call made for its effect was not modelled
+                    # ... and it may have written into the arrays it was handed: they are unknown from here on
+                    for a_ in st.value.args:
+                        if isinstance(a_, ast.Name) and isinstance(env.get(a_.id), Arr) and env[a_.id].ndim >= 1:
+                            old_ = env[a_.id]
+                            u_ = Unk('array possibly modified by the unmodelled call %s' % up(st.value)[:50], st)
+                            for fr_ in [env] + [f_ for f_ in self.frames if f_ is not env]:
+                                _replace_aliases(fr_, old_, u_)
             return None
         if isinstance(st, ast.Return):
             return ('return', self.expr(st.value, env, mod) if st.value is not None else None)
@@ -577,8 +584,14 @@ class Interp:
             managed = []
             for it_ in st.items:
                 cm = self.expr(it_.context_expr, env, mod)
+                bound_ = cm.obj if isinstance(cm, _Closing) else cm
+                if isinstance(cm, Obj) and cm.cls is not None and self.repo.find_member(cm.cls, '__enter__') is not None:
+                    bound_ = self.call(self.repo.find_member(cm.cls, '__enter__')[1], [], selfv=cm, node=st)          # a context manager of the package: what __enter__ returns
+                elif isinstance(cm, Foreign) and not isinstance(cm, _Closing):
+                    r_ = cm.sl_method(self, '__enter__', [], {}, st)
+                    bound_ = cm if r_ is NotImplemented else r_          # a modelled file-like object: `with` hands out the object itself
                 if it_.optional_vars is not None:
-                    self.store(it_.optional_vars, cm.obj if isinstance(cm, _Closing) else cm, env, mod)
+                    self.store(it_.optional_vars, bound_, env, mod)
                 managed.append(cm)
             sig = self.block(st.body, env, mod)
             for cm in reversed(managed):
@@ -588,6 +601,11 @@ class Interp:
                         self.call(self.repo.find_member(o_.cls, 'close')[1], [], selfv=o_, node=st)
                     elif isinstance(o_, Foreign):
                         o_.sl_method(self, 'close', [], {}, st)
+                elif isinstance(cm, Obj) and cm.cls is not None and self.repo.find_member(cm.cls, '__exit__') is not None:
+                    self.call(self.repo.find_member(cm.cls, '__exit__')[1], [None, None, None], selfv=cm, node=st)
+                elif isinstance(cm, Foreign):
+                    if cm.sl_method(self, '__exit__', [None, None, None], {}, st) is NotImplemented:
+                        cm.sl_method(self, 'close', [], {}, st)          # leaving the block closes a file-like object
             return sig
         if isinstance(st, ast.While):
             # a loop whose test is concrete on every iteration (typically `while True` left by break / return / an exception): unrolled, bounded
@@ -705,7 +723,29 @@ class Interp:
                     except Exception:
                         return False
                     return isinstance(ix_, Arr) and ix_.ndim == 1 and ix_.dims == (lab_,) and ix_.poly == mk_
-                if st.body and all(isinstance(b_, ast.Assign) and all(masked_by(t_) for t_ in b_.targets) for b_ in st.body):
+                def where_by(b_):
+                    # name = np.where(m, e, name): where the mask holds nowhere the name keeps its value
+                    if not (len(b_.targets) == 1 and isinstance(b_.targets[0], ast.Name) and isinstance(b_.value, ast.Call) and (chain(b_.value.func) or '').split('.')[-1] == 'where'
+                            and len(b_.value.args) == 3 and isinstance(b_.value.args[2], ast.Name) and b_.value.args[2].id == b_.targets[0].id):
+                        return False
+                    try:
+                        c0_ = self.expr(b_.value.args[0], dict(env), mod)
+                    except Exception:
+                        return False
+                    return isinstance(c0_, Arr) and c0_.ndim == 1 and c0_.dims == (lab_,) and c0_.poly == mk_
+
+                def temporary(b_):
+                    # a name first bound inside the guarded block and not read after it: computed or not, nothing outside sees it
+                    if not (len(b_.targets) == 1 and isinstance(b_.targets[0], ast.Name)) or b_.targets[0].id in env:
+                        return False
+                    fn_ = env.get('__func__')
+                    body_ = getattr(getattr(fn_, 'node', None), 'body', None)
+                    if body_ is None:
+                        return False
+                    end_ = getattr(st, 'end_lineno', st.lineno)
+                    return not any(isinstance(n_, ast.Name) and n_.id == b_.targets[0].id and isinstance(n_.ctx, ast.Load) and n_.lineno > end_ for n_ in ast.walk(fn_.node))
+                if st.body and all(isinstance(b_, ast.Assign) and (all(masked_by(t_) for t_ in b_.targets) or where_by(b_) or temporary(b_)) for b_ in st.body) \
+                        and any(isinstance(b_, ast.Assign) and (all(masked_by(t_) for t_ in b_.targets) or where_by(b_)) for b_ in st.body):
                     return self.block(st.body, env, mod)
         if not st.orelse and isinstance(tv, Arr) and tv.ndim == 0 and tv.mask is None and st.body and all(isinstance(b_, ast.Assign) for b_ in st.body):
             # `if not np.all(m): x = x[m]` (several names, possibly as tuples): where the mask holds everywhere the selection is the whole array, so the
@@ -869,6 +909,27 @@ class Interp:
         itv = self.expr(it, env, mod)
         if isinstance(itv, Obj):
             itv = self.iterate_obj(itv, st)
+        if isinstance(itv, _WhereIdx) and isinstance(itv.mask, Arr) and itv.mask.ndim == 1 and itv.mask.mask is None and itv.mask.dims[0] in self.axis_len \
+                and self.axis_len[itv.mask.dims[0]] <= 16 and isinstance(st.target, ast.Name) and not st.orelse:
+            # the positions where a mask over a few known positions holds: position k is visited exactly when the mask holds there
+            tmp_ = '__mask%d__' % id(st)
+            env[tmp_] = itv.mask
+            try:
+                for k_ in range(self.axis_len[itv.mask.dims[0]]):
+                    test_ = ast.copy_location(ast.Subscript(value=ast.Name(id=tmp_, ctx=ast.Load()), slice=ast.Constant(value=k_), ctx=ast.Load()), st)
+                    body_ = [ast.copy_location(ast.Assign(targets=[ast.Name(id=st.target.id, ctx=ast.Store())], value=ast.Constant(value=k_), lineno=st.lineno), st)] + list(st.body)
+                    if_ = ast.fix_missing_locations(ast.copy_location(ast.If(test=test_, body=body_, orelse=[]), st))
+                    sig = self._if(if_, env, mod)
+                    if sig:
+                        if sig[0] in ('return', 'raise'):
+                            return sig
+                        u_ = Unk('a loop over the positions of a mask left by %s' % sig[0], st)
+                        self._poison(st, env, u_)
+                        env['__tainted__'] = u_
+                        return None
+            finally:
+                env.pop(tmp_, None)
+            return None
         gen = self._generic_iter(itv, st)
         if gen is not None:
             if isinstance(gen, list):          # concrete unrolling
@@ -1084,6 +1145,8 @@ class Interp:
     def getattr(self, o, name, node, mod):
         if name == '__class__' and o.cls is not None:
             return ClassRef(o.cls)
+        if name == '__dict__':
+            return o.attrs          # the attribute table itself: what is written into it is set on the object
         dg = self._descriptor(o, name, '__get__') if o.cls is not None and any(name in c.class_attrs for c in self.repo.mro(o.cls)) else None
         if dg is not None and (name not in o.attrs or self.repo.find_member(dg[0].cls, '__set__') is not None):
             return self.call(dg[1], [o, ClassRef(o.cls)], selfv=dg[0], node=node)          # a descriptor of the class (a data descriptor wins over the instance)
@@ -2596,7 +2659,25 @@ class Interp:
             if r is not NotImplemented:
                 return r
             out_ = kw.pop('out', None) if isinstance(kw.get('out'), Arr) else None
+            wh_ = None
+            if 'where' in kw and f.name.split('.')[0] in ('numpy', 'np') and f.name.split('.')[-1] != 'where':
+                wh_ = self._as_arr(kw.pop('where'))
+                if wh_ is True or (isinstance(wh_, Arr) and wh_.poly == Poly.const(1)):
+                    wh_ = None
+                elif not (isinstance(wh_, Arr) and _is_boolean(wh_.poly) and wh_.mask is None):
+                    return Unk('ufunc where= %r' % (wh_,), e)
+                elif out_ is None:
+                    return Unk('ufunc with where= and no out=: the other elements are left uninitialised', e)
             r = self.libcall(f.name, args, kw, e, mod)
+            if wh_ is not None and isinstance(r, Arr) and r.mask is None:
+                # ufunc(..., out=a, where=m): computed where m holds, a's own value elsewhere
+                try:
+                    d_ = bdims(bdims(out_.dims, r.dims), wh_.dims)
+                except LabelClash:
+                    d_ = None
+                if d_ is None or tuple(d_) != tuple(out_.dims):
+                    return Unk('ufunc where= on differently shaped operands', e)
+                r = Arr(out_.dims, out_.poly + wh_.poly * (r.poly - out_.poly), None, r.unit, dt=r.dt)
             if out_ is not None:
                 # ufunc(..., out=a): the result is written into a's buffer, seen through every view of it
                 if isinstance(r, Arr) and tuple(r.dims) == tuple(out_.dims):
@@ -2966,6 +3047,17 @@ class Interp:
                 return Unk('np.take_along_axis', e)
             if last in ('diagonal', 'transpose', 'swapaxes') and args and isinstance(self._as_arr(args[0]), Arr):
                 return self.method(self._as_arr(args[0]), last, list(args[1:]), kw, e, mod)           # np.f(x, ...) is x.f(...)
+            if last == 'putmask' and len(args) == 3 and isinstance(e, ast.Call) and len(e.args) == 3 and not kw:
+                # np.putmask(a, mask, values): a[mask] = values, in place (values a scalar, or an array of a's shape taken where the mask holds)
+                dst_, wm_, src_ = self._as_arr(args[0]), self._as_arr(args[1]), args[2]
+                if isinstance(dst_, Arr) and isinstance(wm_, Arr) and _is_boolean(wm_.poly) and tuple(wm_.dims) == tuple(dst_.dims):
+                    tgt_ = ast.Subscript(value=e.args[0], slice=e.args[1], ctx=ast.Store())
+                    ast.copy_location(tgt_, e); ast.fix_missing_locations(tgt_)
+                    if isinstance(src_, Arr) and src_.ndim >= 1 and src_.mask is None:
+                        src_ = src_.with_(mask=wm_.poly)
+                    self.store_sub(tgt_, src_, self.frames[-1], mod)
+                    return None
+                return Unk('np.putmask', e)
             if last == 'copyto' and len(args) >= 2 and isinstance(e, ast.Call) and e.args:
                 # np.copyto(dst, src, where=mask): dst[mask] = src (or dst[...] = src), in place
                 wn_ = next((k_.value for k_ in e.keywords if k_.arg == 'where'), None)
@@ -3660,6 +3752,21 @@ class Interp:
                 return list(recv.values())
             if name == 'keys':
                 return list(recv.keys())
+            if name == 'update' and len(args) <= 1 and (not args or isinstance(args[0], dict)):
+                if args:
+                    recv.update(args[0])
+                recv.update(kw)
+                return None
+            if name == 'copy' and not args:
+                return dict(recv)
+            if name == 'setdefault' and 1 <= len(args) <= 2 and isinstance(args[0], (str, int)):
+                return recv.setdefault(args[0], args[1] if len(args) > 1 else None)
+            if name == 'pop' and 1 <= len(args) <= 2 and isinstance(args[0], (str, int)):
+                if args[0] in recv:
+                    return recv.pop(args[0])
+                if len(args) > 1:
+                    return args[1]
+                raise PyRaise('KeyError', repr(args[0]))
             return Unk('dict method %s' % name, e)
         if isinstance(recv, str):
             if all(isinstance(a_, (str, int, float, bool, type(None))) for a_ in list(args) + list(kw.values())) and name in (
